@@ -60,6 +60,7 @@ def run(ctx):
     i64_row_step(ctx, g)
     closed_form_determinants(ctx, g)
     determinant_sign(ctx, g)
+    echelon_driver(ctx, g)
     ctx.clauses.append("gcdx is extended Euclid: r*A + s*B = +-gcd, t*A + u*B = 0, r*u - s*t = +-1 for every input (loop invariant decided on sampled states)")
     gx = ctx.body("geometry::traits::gcdx")
     ctx.scan([gx])
@@ -781,6 +782,151 @@ def determinant_sign(ctx, g):
                         bad = bad or "with %d row exchanges the product of the diagonal is %s" % (k, "negated" if rch else "not negated")
         ctx.ob("T4-determinant-sign", d.name, "negated iff nr_swaps odd", "ok" if not bad else "violation",
                "the diagonal product is negated exactly for an odd number of row exchanges" if not bad else bad)
+
+
+def echelon_driver(ctx, g):
+    """both row-echelon constructors: the pivot row counter starts at 0 and goes up by exactly 1 exactly when a pivot was found in the column;
+    a column is examined only while row < number of rows (strictly: at row == rows the pivot search reads past the last row); the pivot search
+    gets (col, row), the elimination runs over ALL rows below the pivot row - r in row + 1 .. rows - with clear_col(col, r, row, ..);
+    the counter is the rank handed to the echelon form."""
+    ctx.clauses.append("row-echelon driver: row counter 0, +1 per pivot; columns examined iff row < rows; every row below the pivot row eliminated (T4, both twins)")
+    for nm in TWINS:
+        b = ctx.body(nm)
+        bad = None
+        r = strip(norm(b.local_origin(0), g))
+        adt = ctx.facts.adts.get(r[1].replace("adt:", "").rsplit("::", 1)[0]) if r[0] == "agg" else None
+        row = None
+        if adt is not None:
+            names = [f["name"] for f in adt["variants"][0]["fields"]]
+            if "rank" in names and len(names) == len(r[2]):
+                row = strip(r[2][names.index("rank")])
+        pv = [(bi, [unov_deep(strip(norm(b.origin(x), g))) for x in t["args"]]) for bi, t in b.calls("Entry::pivot_row")]
+        cc = [(bi, [unov_deep(strip(norm(b.origin(x), g))) for x in t["args"]], t) for bi, t in b.calls("Entry::clear_col")]
+        if row is None or row[0] != "local" or len(pv) != 1 or len(cc) != 1:
+            bad = "rank counter, pivot search or elimination call not found"
+        else:
+            defs = [(dbb, unov_deep(strip(norm(d, g)))) for dbb, d in b.all_defs_origins(row[1])]
+            ini = [d for _, d in defs if eval_int(d) is not None]
+            inc = [(dbb, d) for dbb, d in defs if eval_int(d) is None]
+            pb, pa = pv[0]
+            cb, ca, ct = cc[0]
+            if [eval_int(d) for d in ini] != [0] or len(inc) != 1 or inc[0][1] != ("binop", "Add", row, ("int", 1)):
+                bad = "the pivot row counter is not `0`, then `+= 1` at one site: %s" % [show(d, 1)[:30] for _, d in defs]
+            else:
+                ib = inc[0][0]
+                fa = [atom_norm(x, g) for x in b.facts_at(ib)]
+                found = any(a[0] == "variant" and a[2] == 1 and is_call(strip(a[1]), "Entry::pivot_row") for a in fa)
+                lp = loop_containing(b, ib)
+                if not found:
+                    bad = "the pivot row counter is advanced for a column without a pivot"
+                elif lp is None or not must_pass_through(b, [s_ for (a_, s_), ps in b.edge_preds().items() if a_ == b.blocks[pb]["term"].get("t") and any(h[0] == "variant" and h[2] == 1 for term, val in ps for h in atoms_of(term, val))][0], ib, lp[0]):
+                    bad = "a column with a pivot can be finished without advancing the pivot row counter"
+            if not bad and (pa[1] != row or loop_range_of_payload(b, b.origin(b.blocks[pb]["term"]["args"][0]), g) is None):
+                bad = "the pivot search is not pivot_row(col, row, ..) with col running over the columns"
+            if not bad:
+                # columns examined iff row < rows
+                rows_t = None
+                for a in (atom_norm(x, g) for x in b.facts_at(pb)):
+                    if a[0] == "rel" and a[1] in ("Lt", "Le") and strip(a[2]) == row:
+                        rows_t = strip(a[3])
+                if rows_t is None:
+                    bad = "no test of the pivot row counter against the number of rows before the pivot search"
+                else:
+                    for rv, nv in ((0, 2), (1, 2), (2, 2), (3, 2), (0, 0), (0, 1)):
+                        def f(y, rv=rv, nv=nv):
+                            y = strip(y)
+                            return rv if y == row else nv if y == rows_t else None
+                        lpp = loop_containing(b, pb)
+                        rch = bool(reachable_sites(b, g, {pb}, f, start=lpp[1] if lpp else 0))
+                        if rch != (rv < nv) and not bad:
+                            bad = "with %d pivot rows found in a matrix of %d rows the next column is %s" % (rv, nv, "examined (the pivot search reads past the last row)" if rch else "not examined (rank too small)")
+            if not bad:
+                rg = loop_range_of_payload(b, b.origin(ct["args"][1]), g)
+                okr = rg is not None and unov_deep(strip(rg[0])) == ("binop", "Add", row, ("int", 1)) and not rg[2] and strip(rg[1]) == rows_t
+                if not (okr and ca[0] == pa[0] and ca[2] == row):
+                    bad = "the elimination is not clear_col(col, r, row, ..) for every r in row + 1 .. rows: range %s" % (rg and (show(rg[0], 1)[:30], show(rg[1], 1)[:30], rg[2]),)
+        ctx.ob("T4-echelon-driver", b.name, "row counter / column guard / elimination range", "ok" if not bad else "violation",
+               "row = 0, += 1 per pivot; pivot_row(col, row) iff row < rows; clear_col(col, r, row) for r in row + 1 .. rows" if not bad else bad)
+    # the integer pivot choice and the zero / one tests of the residue classes
+    pb = ctx.body("<i64 as geometry::traits::Entry>::pivot_row")
+    ctx.scan([pb])
+    bad = None
+    best = [("local", l, nm) for l, nm in pb.debug.items() if pb.local_ty(l) == "usize" and not pb.is_stable_local(l) and len(list(pb.all_defs_origins(l))) == 2]
+    if len(best) != 1:
+        bad = "no running best row"
+    else:
+        defs = [(dbb, strip(norm(d, g))) for dbb, d in pb.all_defs_origins(best[0][1])]
+        upd = [dbb for dbb, d in defs if loop_containing(pb, dbb) is not None]
+        ini = [d for dbb, d in defs if loop_containing(pb, dbb) is None]
+        row0 = ("param", 2, pb.debug.get(2, ""))
+        if ini != [row0] or len(upd) != 1:
+            bad = "the best row does not start as row0 and change at one site"
+        else:
+            lp = loop_containing(pb, upd[0])
+            rg = range_of(pb, ("local", lp[2], ""), g) if lp[2] is not None else None
+            if not (rg and unov_deep(strip(rg[0])) == ("binop", "Add", row0, ("int", 1)) and not rg[2] and is_call(strip(rg[1]), "nr_rows")):
+                bad = "the pivot search does not run over row0 + 1 .. nr_rows()"
+            xs = [t for t in (strip(norm(pb.origin(t["args"][0]), g)) for bi, t in pb.calls("::abs"))]
+            def which(t):
+                ix = [y for y in subterms(t) if is_call(y, "Index::index")]
+                if not ix:
+                    return None
+                key = strip(ix[0][2][1])
+                r_ = strip(key[2][0]) if key[0] == "agg" else None
+                return "y" if r_ == best[0] else "x" if r_ is not None else None
+            def val(xv, yv):
+                def f(y):
+                    y = strip(y)
+                    w = which(y)
+                    if is_call(y, "::abs"):
+                        w = which(strip(y[2][0]))
+                        return abs(xv) if w == "x" else abs(yv) if w == "y" else None
+                    if is_call(y, "Index::index") or (y[0] == "deref"):
+                        return xv if w == "x" else yv if w == "y" else None
+                    return None
+                return f
+            if not bad:
+                for xv, yv, want in ((0, 0, False), (0, 5, False), (3, 0, True), (-3, 0, True), (2, 5, True), (-2, 5, True), (5, 2, False), (5, -2, False), (7, -9, True)):
+                    rch = bool(reachable_sites(pb, g, {upd[0]}, val(xv, yv), start=lp[1]))
+                    if rch != want and not bad:
+                        bad = "candidate entry %d against the best entry %d so far: the candidate %s" % (xv, yv, "replaces it" if rch else "does not replace it")
+            # result: Some(best) iff entry != 0
+            if not bad:
+                somes = [bi for bi, si, s_ in pb.assigns() if s_["place"]["l"] == 0 and not s_["place"]["p"] and strip(norm(pb.rv_origin(s_["rv"]), g))[1].endswith("Option::Some")]
+                for yv in (0, 4, -4):
+                    rch = bool(reachable_sites(pb, g, set(somes), val(1, yv)))
+                    if rch != (yv != 0) and not bad:
+                        bad = "best entry %d: the pivot search answers %s" % (yv, "Some" if rch else "None")
+    ctx.ob("T4-int-pivot", pb.name, "smallest non-zero entry below row0", "ok" if not bad else "violation",
+           "best = row0; row in row0 + 1 .. rows replaces it iff its entry is non-zero and (best entry is zero or |entry| < |best|); Some iff best entry != 0" if not bad else bad)
+    for nm, k in (("<geometry::prime_residue_classes::PrimeResidueClass<P> as num_traits::Zero>::is_zero", 0), ("<geometry::prime_residue_classes::PrimeResidueClass<P> as num_traits::One>::is_one", 1)):
+        zb = ctx.facts.bodies.get(nm)
+        if zb is None:
+            continue
+        ctx.scan([zb])
+        r = strip(norm(zb.local_origin(0), g))
+        ok = r[0] == "binop" and r[1] == "Eq" and {strip(r[2]), strip(r[3])} == {("field", ("param", 1, zb.debug.get(1, "")), "value"), ("int", k)}
+        ctx.ob("T4-residue-tests", zb.name, "value == %d" % k, "ok" if ok else "violation",
+               "the class of %d is recognised by its canonical representative" % k if ok else "%s is not `self.value == %d`: pivots / units are mis-recognised in the modular solver" % (nm.split("::")[-1], k))
+    cd = ctx.body("<i64 as geometry::traits::Entry>::can_divide")
+    ctx.scan([cd])
+    a_, b_ = ("param", 1, cd.debug.get(1, "")), ("param", 2, cd.debug.get(2, ""))
+    bad = None
+    for av, bv, want in ((6, 3, True), (7, 3, False), (0, 3, True), (6, 0, False), (0, 0, False), (-6, 3, True), (6, -4, False), (5, 1, True)):
+        def f(y, av=av, bv=bv):
+            y = strip(y)
+            if y in (a_, ("deref", a_)):
+                return av
+            if y in (b_, ("deref", b_)):
+                return bv
+            return None
+        def ev(t):
+            env = {y: f(y) for y in subterms(t) if isinstance(y, tuple) and y and f(y) is not None}
+            return eval_term_env(fold_std_ops(unov_deep(t)), env)
+        got = bool_results(cd, g, f)
+        if got != {want} and not bad:
+            bad = "can_divide(%d, %d) is %s" % (av, bv, sorted(got, key=str))
+    ctx.ob("T4-int-can-divide", cd.name, "b != 0 && a / b * b == a", "ok" if not bad else "violation", "exact divisibility, false for a zero divisor" if not bad else bad)
 
 
 def stripcalls(t):
